@@ -329,3 +329,149 @@ Proof.
   - apply good_bind; [exact IHt1|]. intros x. apply good_bind; [exact IHt2|]. intros y. apply good_ret.
   - apply good_ret.
 Qed.
+
+(* ---- skipRemainingOnKafkaError ---- *)
+Lemma good_skipRemaining A (p : P A) : good p -> good (skipRemainingOnKafkaError p).
+Proof.
+  intros Hp sz s r sz' s' H. unfold skipRemainingOnKafkaError in H.
+  destruct (p sz s) as [[ra sz1] s1] eqn:Ep.
+  destruct (Hp _ _ _ _ _ Ep) as (c1 & Hs & Hb & Hd).
+  assert (Hpass : forall k, (k < length c1)%nat ->
+     exists e sz2 s2, skipRemainingOnKafkaError p sz (firstn k c1) = (inr e, sz2, s2) /\ transport e = true).
+  { intros k Hk. destruct (Hd k Hk) as (e & sz2 & s2 & He & Ht). exists e, sz2, s2.
+    split; [|exact Ht]. unfold skipRemainingOnKafkaError. rewrite He.
+    destruct e; try reflexivity; discriminate Ht. }
+  destruct ra as [a|e].
+  { inversion H; subst r sz' s'. exists c1. split; [exact Hs|]. split; [|exact Hpass].
+    intros Hr. destruct (Hb Hr) as [Hsz Hloc]. split; [exact Hsz|].
+    intros rest. unfold skipRemainingOnKafkaError. rewrite Hloc. reflexivity. }
+  destruct e as [| | |c| | | | | | |];
+    try (inversion H; subst r sz' s'; exists c1; split; [exact Hs|]; split; [|exact Hpass];
+         intros Hr; destruct (Hb Hr) as [Hsz Hloc]; split; [exact Hsz|];
+         intros rest; unfold skipRemainingOnKafkaError; rewrite Hloc; reflexivity).
+  (* the parser stopped on a Kafka error: the remainder is discarded *)
+  destruct (Hb eq_refl) as [Hsz1 Hloc1].
+  destruct (discardN sz1 sz1 s1) as [[rd sz2] s2] eqn:Ed.
+  destruct (good_discardN sz1 _ _ _ _ _ Ed) as (c2 & Hs2 & Hb2 & Hd2).
+  assert (Hr' : r = match rd with inl _ => inr (EKafka c) | inr e => inr e end /\ sz' = sz2 /\ s' = s2)
+    by (destruct rd; inversion H; auto).
+  destruct Hr' as (Hr' & ? & ?). subst sz' s'.
+  exists (c1 ++ c2). split; [subst s s1; apply app_assoc|]. split.
+  - intros Hrt.
+    assert (Hrd : rtransport rd = false) by (destruct rd; [reflexivity|subst r; exact Hrt]).
+    destruct (Hb2 Hrd) as [Hsz2 Hloc2]. split; [rewrite app_length; lia|].
+    intros rest. unfold skipRemainingOnKafkaError. rewrite <- app_assoc, Hloc1, Hloc2.
+    subst r. destruct rd; reflexivity.
+  - intros k Hk. rewrite app_length in Hk.
+    destruct (Nat.lt_ge_cases k (length c1)) as [Hlt|Hge].
+    + rewrite firstn_app_lt by exact Hlt. apply Hpass. exact Hlt.
+    + destruct (Hd2 (k - length c1)%nat ltac:(lia)) as (e & sz3 & s3 & He & Ht).
+      exists e, sz3, s3. split; [|exact Ht].
+      unfold skipRemainingOnKafkaError. rewrite firstn_app_ge by exact Hge. rewrite Hloc1, He. reflexivity.
+Qed.
+
+(* ---- [safe]: on a stream that holds at least the announced size, a reader never fails on the
+   stream itself (every read is bounded by the remaining size) ---- *)
+Definition safe {A} (p : P A) : Prop :=
+  forall sz s r sz' s', p sz s = (r, sz', s') -> sz <= Z.of_nat (length s) ->
+  rtransport r = false /\ sz' <= Z.of_nat (length s').
+
+Lemma safe_ret A (a : A) : safe (ret a).
+Proof. intros sz s r sz' s' H Hl. inversion H; subst. auto. Qed.
+Lemma safe_fail A (e : err) : transport e = false -> safe (@fail A e).
+Proof. intros He sz s r sz' s' H Hl. inversion H; subst. auto. Qed.
+Lemma safe_get_sz : safe get_sz.
+Proof. intros sz s r sz' s' H Hl. inversion H; subst. auto. Qed.
+Lemma safe_bind A B (p : P A) (f : A -> P B) : safe p -> (forall a, safe (f a)) -> safe (bind p f).
+Proof.
+  intros Hp Hf sz s r sz' s' H Hl. unfold bind in H.
+  destruct (p sz s) as [[[a|e] sz1] s1] eqn:Ep; destruct (Hp _ _ _ _ _ Ep Hl) as [Hr Hl1].
+  - eapply Hf; eassumption.
+  - inversion H; subst. auto.
+Qed.
+Lemma safe_pmap A B (f : A -> B) (p : P A) : safe p -> safe (pmap f p).
+Proof. intros H. apply safe_bind; [exact H|]. intros a. apply safe_ret. Qed.
+Lemma safe_peek_read n : safe (peek_read n).
+Proof.
+  intros sz s r sz' s' H Hl. unfold peek_read in H.
+  destruct (Z.ltb_spec sz (Z.of_nat n)); [inversion H; subst; auto|].
+  destruct (Nat.ltb_spec (length s) n); [lia|].
+  inversion H; subst. split; [reflexivity|]. rewrite skipn_length. lia.
+Qed.
+Lemma safe_discardN n : safe (discardN n).
+Proof.
+  intros sz s r sz' s' H Hl. unfold discardN in H.
+  destruct (Z.leb_spec n sz).
+  - destruct (bufio_discard_spec n s) as [[Hb0 E]|[[Hb0 E]|[Hb0 [Hb1 E]]]]; rewrite E in H;
+      inversion H; subst; clear H; try lia.
+    + split; [reflexivity|lia].
+    + split; [reflexivity|]. rewrite skipn_length. lia.
+  - destruct (bufio_discard_spec sz s) as [[Hb0 E]|[[Hb0 E]|[Hb0 [Hb1 E]]]]; rewrite E in H;
+      inversion H; subst; clear H; try lia.
+    + split; [reflexivity|lia].
+    + split; [reflexivity|]. rewrite skipn_length. lia.
+Qed.
+Lemma safe_guard_short n : safe (guard_short n).
+Proof.
+  intros sz s r sz' s' H Hl. unfold guard_short in H.
+  destruct (sz <? n); inversion H; subst; auto.
+Qed.
+Lemma safe_readNewBytes n : safe (readNewBytes n).
+Proof.
+  intros sz s r sz' s' H Hl. unfold readNewBytes in H.
+  destruct (Z.ltb_spec 0 n); [|inversion H; subst; auto].
+  destruct (Z.ltb_spec sz n) as [Hs|Hs]; cbv zeta in H.
+  - destruct (Z.ltb_spec sz 0); [inversion H; subst; auto|].
+    destruct (Z.leb_spec sz (Z.of_nat (length s))); [|lia].
+    inversion H; subst. split; [reflexivity|]. rewrite skipn_length. lia.
+  - destruct (Z.ltb_spec n 0); [lia|].
+    destruct (Z.leb_spec n (Z.of_nat (length s))); [|lia].
+    inversion H; subst. split; [reflexivity|]. rewrite skipn_length. lia.
+Qed.
+Lemma safe_rep A (p : P A) : safe p -> forall n, safe (rep n p).
+Proof.
+  intros Hp n. induction n as [|n IH]; cbn [rep]; [apply safe_ret|].
+  apply safe_bind; [exact Hp|]. intros a. apply safe_bind; [exact IH|]. intros l. apply safe_ret.
+Qed.
+Lemma safe_expectZeroSize A (p : P A) : safe p -> safe (expectZeroSize p).
+Proof.
+  intros Hp sz s r sz' s' H Hl. unfold expectZeroSize in H.
+  destruct (p sz s) as [[[a|e] sz1] s1] eqn:Ep; destruct (Hp _ _ _ _ _ Ep Hl) as [Hr Hl1].
+  - destruct (sz1 =? 0); inversion H; subst; auto.
+  - inversion H; subst. auto.
+Qed.
+Lemma safe_skipRemaining A (p : P A) : safe p -> safe (skipRemainingOnKafkaError p).
+Proof.
+  intros Hp sz s r sz' s' H Hl. unfold skipRemainingOnKafkaError in H.
+  destruct (p sz s) as [[ra sz1] s1] eqn:Ep. destruct (Hp _ _ _ _ _ Ep Hl) as [Hr Hl1].
+  destruct ra as [a|e]; [inversion H; subst; auto|].
+  destruct e; try (inversion H; subst; auto).
+  destruct (discardN sz1 sz1 s1) as [[rd sz2] s2] eqn:Ed.
+  destruct (safe_discardN _ _ _ _ _ _ Ed Hl1) as [Hrd Hl2].
+  destruct rd; inversion H; subst; auto.
+Qed.
+Lemma safe_read_int w : safe (read_int w).
+Proof. unfold read_int. apply safe_bind; [apply safe_peek_read|]. intros b. apply safe_ret. Qed.
+Lemma safe_lenprefixed A w (cb : Z -> P A) : (forall n, safe (cb n)) ->
+  safe (n <- read_int w ;; _ <- guard_short n ;; cb n).
+Proof.
+  intros H. apply safe_bind; [apply safe_read_int|]. intros n.
+  apply safe_bind; [apply safe_guard_short|]. intros _. apply H.
+Qed.
+Lemma safe_discard_cb n : safe (discard_cb n).
+Proof. unfold discard_cb. destruct (n <? 0); [apply safe_ret|apply safe_discardN]. Qed.
+Lemma safe_readArrayWith A (cb : P A) : safe cb -> safe (readArrayWith cb).
+Proof.
+  intros H. unfold readArrayWith. apply safe_bind; [apply safe_read_int|]. intros n.
+  apply safe_rep. exact H.
+Qed.
+Lemma safe_read_ty t : safe (read_ty t).
+Proof.
+  induction t; cbn [read_ty];
+    try (apply safe_pmap; first [apply safe_read_int
+      | apply safe_lenprefixed; intros; apply safe_readNewBytes]).
+  - apply safe_pmap. unfold readBool. apply safe_bind; [apply safe_peek_read|]. intros b. apply safe_ret.
+  - apply safe_pmap. apply safe_readArrayWith. exact IHt.
+  - apply safe_bind; [exact IHt1|]. intros x. apply safe_bind; [exact IHt2|]. intros y. apply safe_ret.
+  - apply safe_ret.
+Qed.
